@@ -54,31 +54,33 @@ func (t *Thread) Done() bool   { return t.done }
 
 // Sched is the state of one execution.
 type Sched struct {
-	threads     []*Thread
-	cur         *Thread
-	aborting    atomic.Bool
-	finished    chan struct{}
-	finOnce     bool
-	steps       int
-	horizon     int
-	x           *Execution
-	clock       int64
-	timers      []*timer
-	spins       int
-	atEnd       []func()
-	lonelyPolls int
-	deadlines   []deadlineEntry
-	sig         chain
-	monSig      chain
-	mon         map[string]int64
-	timeChain   chain
-	visited     map[chain]int16
-	bound       int
-	merge       bool
-	chans       map[unsafe.Pointer]*chanModel
-	nextObj     int
-	locs        map[unsafe.Pointer]*locState
-	trace       bool
+	arrive                  bool // Options.Arrive
+	nbSend, nbRecv, anySend bool // non-blocking / any operations seen on unbuffered channels
+	threads                 []*Thread
+	cur                     *Thread
+	aborting                atomic.Bool
+	finished                chan struct{}
+	finOnce                 bool
+	steps                   int
+	horizon                 int
+	x                       *Execution
+	clock                   int64
+	timers                  []*timer
+	spins                   int
+	atEnd                   []func()
+	lonelyPolls             int
+	deadlines               []deadlineEntry
+	sig                     chain
+	monSig                  chain
+	mon                     map[string]int64
+	timeChain               chain
+	visited                 map[chain]int16
+	bound                   int
+	merge                   bool
+	chans                   map[unsafe.Pointer]*chanModel
+	nextObj                 int
+	locs                    map[unsafe.Pointer]*locState
+	trace                   bool
 }
 
 // S is the scheduler of the execution in progress; nil in passthrough mode
@@ -116,7 +118,7 @@ func (s *Sched) abortNow() {
 
 func runOne(opts Options, body func()) *Execution {
 	epochCounter++
-	s := &Sched{finished: make(chan struct{}), horizon: opts.Horizon, x: &Execution{}, chans: map[unsafe.Pointer]*chanModel{}, locs: map[unsafe.Pointer]*locState{}, trace: true, mon: map[string]int64{}, visited: ex.visited, bound: opts.Bound, merge: opts.Merge}
+	s := &Sched{finished: make(chan struct{}), horizon: opts.Horizon, x: &Execution{}, chans: map[unsafe.Pointer]*chanModel{}, locs: map[unsafe.Pointer]*locState{}, trace: true, mon: map[string]int64{}, visited: ex.visited, bound: opts.Bound, merge: opts.Merge, arrive: opts.Arrive}
 	if s.horizon == 0 {
 		s.horizon = 20000
 	}
@@ -151,6 +153,7 @@ func runOne(opts Options, body func()) *Execution {
 	}
 	s.x.Steps = s.steps
 	s.x.VTime = s.clock
+	s.x.NeedArrive = s.nbSend || (s.nbRecv && s.anySend)
 	return s.x
 }
 
